@@ -7,8 +7,8 @@ import torch
 from . import wq
 
 EVIDENCE = dict(
-    bounds="value clause (RERR): one group of 3 symbolic finite elements (roles min / middle / max), every ordering (quick: 2 of 6), hull regions straddling / positive / negative, bits in {2,4}, float16/bfloat16/float32; BIT: 2 groups x 2 elements float16/bfloat16 (float32 under a 120 s cap); plumbing (ALG): ranks 1..4 with dims <= 4 (covering subset in quick), every divisor group size and None, axis 0 and -1, three layouts",
-    outside="groups larger than 3 elements for the solver-decided value clause (larger groups are covered by the plumbing identity: each element is the scalar affine kernel applied with the real optimizer's scale/zero-point of its own group); shapes beyond the bounds; custom optimizers; CUDA/MPS",
+    bounds="value clause (RERR): one group of N symbolic finite elements under an assumed total order (roles min / middles / max) - N=3 every ordering (quick: 2 of 6), N=4 all 24 orderings (quick: 1), N=5, 8, 16, 32, 64 two to three orderings each (quick: N=8, one ordering), hull regions straddling / positive / negative, bits in {2,4}, float16/bfloat16/float32; BIT: 2 groups x 2 elements float16/bfloat16 (float32 under a 120 s cap); plumbing (ALG): ranks 1..4 with dims <= 4 (covering subset in quick), every divisor group size and None, axis 0 and -1, three layouts",
+    outside="groups larger than 64 elements (quick: 8) for the solver-decided value clause, and orderings of the larger groups other than the listed ones (an ordering only selects which variable plays min and max: the min/max chains of the real optimizer are resolved per ordering); beyond that, groups are covered by the plumbing identity: each element is the scalar affine kernel applied with the real optimizer's scale/zero-point of its own group); shapes beyond the bounds; custom optimizers; CUDA/MPS",
     assumptions=[
         "RERR standard model of IEEE arithmetic; its no-overflow / no-wrap obligations are assumed in the value clause and are exactly the regions asked for (and found) by the BIT clause",
         "unpack(pack(code)) == code is established per run by the range and field lemmas (BIT) and then used to cut the bit operations out of the RERR/ALG terms",
@@ -32,6 +32,13 @@ def cases(tier, seed):
         for q in wq.QTB:
             for p in (perms if tier == "thorough" else [perms[0], perms[3]]):
                 out.append(dict(kind="group3", dtype=dt, qtype=q, perm=list(p)))
+            # larger groups: under an assumed total order every min/max chain resolves, so each element's term depends on itself,
+            # the minimum and the maximum only; 4 and 5 elements exercise "several middles" and every position of the extremes
+            p4 = list(itertools.permutations(range(4)))
+            p8, p16 = [5, 2, 7, 0, 3, 6, 1, 4], [(5 * k + 3) % 16 for k in range(16)]
+            big = ([list(x) for x in p4] + [[4, 0, 2, 1, 3], [1, 3, 0, 4, 2], p8, p8[::-1], p16, p16[::-1], [(11 * k + 7) % 32 for k in range(32)], [(27 * k + 5) % 64 for k in range(64)]]) if tier == "thorough" else ([[2, 0, 3, 1], p8] if dt != "float32" else [p8])
+            for p in big:
+                out.append(dict(kind="group3", dtype=dt, qtype=q, perm=p))
             if dt != "float32" or tier == "thorough":
                 out.append(dict(kind="bit", dtype=dt, qtype=q, tier=tier))
         for q in wq.QTB:
@@ -125,7 +132,8 @@ def run_case(case, res):
 
     if case["kind"] == "group3":
         perm = case["perm"]
-        w = torch.tensor([[0.3, -0.2, 0.7]], dtype=dt)
+        ne = len(perm)
+        w = torch.tensor([([0.3, -0.2, 0.7] + [round(0.61 * ((k * 7) % 11) / 11 - 0.17, 3) for k in range(ne - 3)])], dtype=dt)
         with Session(res) as m:
             W = m.symbolic(w, "w")
             q = quantize_weight(w, q_t, 0)
@@ -136,16 +144,16 @@ def run_case(case, res):
         if mp is None:
             return
         D2 = api.subst(ctx, list(D.reshape(-1)), mp)
-        rank = {W[0, perm[k]].uid: k for k in range(3)}
+        rank = {W[0, perm[k]].uid: k for k in range(ne)}
         for region in ("straddle", "pos", "neg"):
             D3 = specialise(ctx, D2, rank, region)
             (SC3,) = specialise(ctx, [SC], rank, region)
             # scale lemma: the optimizer's scale is within 3u of range/(2^bits-1) where the range is either the hull of the group and
             # zero or the group's own min..max (both satisfy the property; the one that is proved becomes the cut assumption)
             r = rerr.Rerr(ctx)
-            wr = [r.tr(W[0, k]) for k in range(3)]
-            lo_, hi_ = wr[perm[0]], wr[perm[2]]
-            order = [wr[perm[0]] <= wr[perm[1]], wr[perm[1]] <= wr[perm[2]]]
+            wr = [r.tr(W[0, k]) for k in range(ne)]
+            lo_, hi_ = wr[perm[0]], wr[perm[-1]]
+            order = [wr[perm[k]] <= wr[perm[k + 1]] for k in range(ne - 1)]
             regc = {"straddle": [lo_ <= 0, hi_ >= 0], "pos": [lo_ > 0], "neg": [hi_ < 0]}[region]
             hull = {"straddle": hi_ - lo_, "pos": hi_, "neg": -lo_}[region]
             sr = r.tr(SC3)
@@ -164,13 +172,13 @@ def run_case(case, res):
                 continue
             D4, cmap, _ = api.cut(ctx, D3, [SC3], "scale")
             svar = cmap[SC3.uid]
-            for i in range(3):
+            for i in range(ne):
                 r = rerr.Rerr(ctx)
-                wr = [r.tr(W[0, k]) for k in range(3)]
+                wr = [r.tr(W[0, k]) for k in range(ne)]
                 dr = [r.tr(d) for d in D4]
                 sr = r.tr(svar)
-                order = [wr[perm[0]] <= wr[perm[1]], wr[perm[1]] <= wr[perm[2]]]
-                lo_, hi_ = wr[perm[0]], wr[perm[2]]
+                order = [wr[perm[k]] <= wr[perm[k + 1]] for k in range(ne - 1)]
+                lo_, hi_ = wr[perm[0]], wr[perm[-1]]
                 if region == "straddle":
                     reg, lo, hi = [lo_ <= 0, hi_ >= 0], lo_, hi_
                 elif region == "pos":
@@ -193,7 +201,7 @@ def run_case(case, res):
                         res.query("half-step", "RERR", v, secs, sub=f"{region} elem{i} sign{sgn} side{gi}")
                         if v == "sat":
                             wv = api.real_model_values(r, model, W, dt)
-                            res.candidate("half-step", "RERR", enc(api.tensor_from_values(wv, (1, 3), dt), 0, None))
+                            res.candidate("half-step", "RERR", enc(api.tensor_from_values(wv, (1, ne), dt), 0, None))
                 if i == 0:
                     v, secs, _ = api.solve(r.cons + order + reg + obl + slem + [hi_ > lo_], 30)
                     res.query("vacuity-half-step", "RERR", "unsat" if v == "sat" else "unknown", secs, sub=region, symbolic=False)
